@@ -201,3 +201,26 @@ MANIFEST_TEXT["C05"] = dict(
     text="Raw orthogonal routes are compared with an independent optimum on the Hanan grid of the scene; the bend estimator is checked on its complete input table against BFS. Held on the executions observed; F16 (turn pruning loses the grid optimum for direction-restricted endpoints) is a recorded finding.",
     note="Trusts the harness' grid oracle and BFS; for direction-restricted endpoints the comparison grid is the one spanned by the scene's own coordinates.",
 )
+
+CHECKS["C06"] = dict(
+    level="exploration",
+    rule=("cases = histories on one live Router: initial scene (2-9 separated convex shapes, 1-4 connectors) followed by 1-12 transactions of 1-4 operations drawn from "
+          "move (relative / absolute incl. resize) / delete / add shape, move endpoint, add / delete connector and geometric no-ops; both routing modes, transactions on and "
+          "setTransactionUse(false), segmentPenalty 0 and >0; after every processTransaction a freshly built Router for the same final scene is the reference model. "
+          "non-trivial = at least one route changed during the history; distinct = digest of the recorded operation history"),
+    workloads=[
+        dict(harness="c06_incr", mode="history", quick=30000, thorough=600000, watchdog=30, san_thorough=3000),
+        dict(harness="c06_incr", mode="regress", quick=1, thorough=1, fixed=True, watchdog=60),
+    ],
+    min_nontrivial=dict(quick=8000, thorough=50000),
+    max_inconclusive=0.03,
+    require_obs=["transactions", "idle_transactions", "geometric_noop_transactions", "route_comparisons"],
+    assumptions=["at most one operation per shape per transaction (in particular no add+delete of one shape, the documented precondition)",
+                 "incremental cheaper than fresh is the fresh router's sub-optimality (C04/C05), counted, not judged here",
+                 "a transaction holding only geometric no-ops may re-route to another equal-cost path; only an idle processTransaction() must leave routes bit-identical"],
+)
+MANIFEST_TEXT["C06"] = dict(
+    technique="runtime monitor over API histories with a reference model: after every transaction a fresh Router routes the same final scene and costs/validity are compared; idle transactions checked for bit-identical routes",
+    text="Histories are recorded at the client boundary and each intermediate state is compared with routing from scratch, which is exactly the property's statement; reach comes from the operation mix (relative/absolute moves, resizes, deletions, added connectors, no-ops), both modes and both transaction settings. Held on the executions observed.",
+    note="Trusts the fresh Router as reference for cost (its own optimality is C04/C05's business) and the harness' convex clipping for validity.",
+)
